@@ -1,6 +1,82 @@
-import FormulaicVerif.Proofs.C04Eval
+import FormulaicVerif.Proofs.C04Poly
+import FormulaicVerif.Proofs.C04Cat
+/-! Insertion-ordered dictionaries, the call protocol of a lawful transform, the decorator's loop over
+dict-valued data (`T.callDict`) and the column-by-column call on a 2-D array (`callCols`). -/
 namespace FormulaicVerif.Proofs.C04
 open FormulaicVerif.Model FormulaicVerif.Model.Replay FormulaicVerif.Spec.Replay
+
+/-! ## dictionaries -/
+section dict
+variable {κ σ : Type} [DecidableEq κ]
+
+theorem getKey_setKey_same (m : List (κ × σ)) (k : κ) (s : σ) : getKey (setKey m k s) k = some s := by
+  induction m with
+  | nil => simp [setKey, getKey]
+  | cons a r ih =>
+    obtain ⟨k', s'⟩ := a
+    simp only [setKey]
+    by_cases h : k' = k
+    · simp [h, getKey]
+    · simp [h, getKey, ih]
+
+theorem getKey_setKey_ne (m : List (κ × σ)) (k k' : κ) (s : σ) (h : k' ≠ k) :
+    getKey (setKey m k s) k' = getKey m k' := by
+  induction m with
+  | nil => simp [setKey, getKey, Ne.symm h]
+  | cons a r ih =>
+    obtain ⟨k2, s2⟩ := a
+    simp only [setKey]
+    by_cases h2 : k2 = k
+    · subst h2
+      simp [getKey, Ne.symm h]
+    · simp only [h2, if_false, getKey, ih]
+
+theorem setKey_of_getKey (m : List (κ × σ)) (k : κ) (s : σ) (h : getKey m k = some s) : setKey m k s = m := by
+  induction m with
+  | nil => simp [getKey] at h
+  | cons a r ih =>
+    obtain ⟨k', s'⟩ := a
+    simp only [getKey] at h
+    simp only [setKey]
+    by_cases hk : k' = k
+    · simp only [hk, if_true, Option.some.injEq] at h
+      simp [hk, h]
+    · simp only [hk, if_false] at h
+      simp [hk, ih h]
+
+theorem extends_refl (m : List (κ × σ)) : Extends m m := fun _ _ h => h
+
+theorem extends_trans {a b c : List (κ × σ)} (h1 : Extends a b) (h2 : Extends b c) : Extends a c :=
+  fun k v h => h2 k v (h1 k v h)
+
+theorem extends_setKey (m : List (κ × σ)) (k : κ) (s : σ) (h : getKey m k = none) : Extends m (setKey m k s) := by
+  intro k' v hv
+  by_cases hk : k' = k
+  · subst hk; rw [h] at hv; cases hv
+  · rw [getKey_setKey_ne m k k' s hk]; exact hv
+
+end dict
+
+/-! ## one stateful call -/
+/-- the call protocol on a recorded complete state, for any lawful transform -/
+theorem call_some {α β σ ε : Type} {t : T α β σ ε} {Good : σ → Prop} (L : Lawful t Good) (st : σ)
+    (hg : Good st) (xs : List α) (out : List β) (st' : σ) (h : t.call (some st) xs = .ok (out, st')) :
+    st' = st ∧ out.length = xs.length ∧ ∀ is, t.call (some st) (select is xs) = .ok (select is out, st) := by
+  have h' : t.run st xs = .ok (out, st') := h
+  obtain ⟨ho, hs⟩ := L.rowwise st xs out st' hg h'
+  exact ⟨hs, by rw [ho]; simp, fun is => run_select L st hg xs out st' h' is⟩
+
+theorem call_none {α β σ ε : Type} {t : T α β σ ε} {Good : σ → Prop} (L : Lawful t Good)
+    (xs : List α) (out : List β) (st : σ) (h : t.call none xs = .ok (out, st)) :
+    Good st ∧ t.call (some st) xs = .ok (out, st) := by
+  simp only [T.call] at h
+  cases hf : t.fit xs with
+  | error e => simp [hf] at h
+  | ok p =>
+    obtain ⟨s, o⟩ := p
+    simp only [hf, Except.ok.injEq, Prod.mk.injEq] at h
+    obtain ⟨rfl, rfl⟩ := h
+    exact ⟨L.fit_good xs s o hf, L.after_fit xs s o hf⟩
 
 section
 variable {α σ ε κ : Type} [DecidableEq κ]
@@ -133,5 +209,214 @@ theorem callDict_replay {t : T α α σ ε} {Good : σ → Prop} (L : Lawful t G
           simp only [List.map_cons, T.callDict, hh, Bool.false_eq_true, if_false, hget', g3 is,
             setKey_of_getKey m' k s' hget', i2 is]
 end
+
+
+/-! ## keys and lengths of the decorator's loop -/
+section
+variable {α σ ε κ : Type} [DecidableEq κ]
+
+/-- the result of the loop has the keys of the data, in the same order -/
+theorem callDict_keys {t : T α α σ ε} (hidden : κ → Bool) (cs : List (κ × List α)) (m : List (κ × σ))
+    (res : List (κ × List α)) (m1 : List (κ × σ)) (h : t.callDict hidden m cs = .ok (res, m1)) :
+    res.map (·.1) = cs.map (·.1) := by
+  induction cs generalizing m res m1 with
+  | nil =>
+    simp only [T.callDict, Except.ok.injEq, Prod.mk.injEq] at h
+    obtain ⟨rfl, rfl⟩ := h
+    rfl
+  | cons p rest ih =>
+    obtain ⟨k, datum⟩ := p
+    simp only [T.callDict] at h
+    by_cases hh : hidden k = true
+    · simp only [hh, if_true] at h
+      cases hr : t.callDict hidden m rest with
+      | error e => simp [hr] at h
+      | ok r =>
+        obtain ⟨res', m'⟩ := r
+        simp only [hr, Except.ok.injEq, Prod.mk.injEq] at h
+        obtain ⟨rfl, rfl⟩ := h
+        simp only [List.map_cons, ih m res' m' hr]
+    · simp only [hh, Bool.false_eq_true, if_false] at h
+      cases hc : t.call (getKey m k) datum with
+      | error e => simp [hc] at h
+      | ok r0 =>
+        obtain ⟨out, s⟩ := r0
+        simp only [hc] at h
+        cases hr : t.callDict hidden (setKey m k s) rest with
+        | error e => simp [hr] at h
+        | ok r =>
+          obtain ⟨res', m'⟩ := r
+          simp only [hr, Except.ok.injEq, Prod.mk.injEq] at h
+          obtain ⟨rfl, rfl⟩ := h
+          simp only [List.map_cons, ih _ res' m' hr]
+
+/-- one call of a lawful transform (fitting or replaying a good state) yields one output per input -/
+theorem call_len {β : Type} {t : T α β σ ε} {Good : σ → Prop} (L : Lawful t Good) (o : Option σ)
+    (ho : ∀ s0, o = some s0 → Good s0) (xs : List α) (out : List β) (s : σ)
+    (h : t.call o xs = .ok (out, s)) : out.length = xs.length ∧ Good s := by
+  cases o with
+  | none =>
+    obtain ⟨g1, g2⟩ := call_none L xs out s h
+    obtain ⟨_, g3, _⟩ := call_some L s g1 xs out s g2
+    exact ⟨g3, g1⟩
+  | some s0 =>
+    obtain ⟨g1, g2, _⟩ := call_some L s0 (ho s0 rfl) xs out s h
+    subst g1
+    exact ⟨g2, ho _ rfl⟩
+
+/-- every column of the result is as long as the columns of the data (the states found under the
+visible keys of the data are good) -/
+theorem callDict_len {t : T α α σ ε} {Good : σ → Prop} (L : Lawful t Good) (hidden : κ → Bool)
+    (cs : List (κ × List α)) (m : List (κ × σ))
+    (hg : ∀ p ∈ cs, hidden p.1 = false → ∀ s, getKey m p.1 = some s → Good s)
+    (res : List (κ × List α)) (m1 : List (κ × σ)) (h : t.callDict hidden m cs = .ok (res, m1))
+    (n : Nat) (hn : ∀ p ∈ cs, p.2.length = n) : ∀ q ∈ res, q.2.length = n := by
+  induction cs generalizing m res m1 with
+  | nil =>
+    simp only [T.callDict, Except.ok.injEq, Prod.mk.injEq] at h
+    obtain ⟨rfl, rfl⟩ := h
+    intro q hq; cases hq
+  | cons p rest ih =>
+    obtain ⟨k, datum⟩ := p
+    simp only [T.callDict] at h
+    by_cases hh : hidden k = true
+    · simp only [hh, if_true] at h
+      cases hr : t.callDict hidden m rest with
+      | error e => simp [hr] at h
+      | ok r =>
+        obtain ⟨res', m'⟩ := r
+        simp only [hr, Except.ok.injEq, Prod.mk.injEq] at h
+        obtain ⟨rfl, rfl⟩ := h
+        intro q hq
+        rcases List.mem_cons.1 hq with rfl | hq
+        · exact hn (k, datum) (by simp)
+        · exact ih m (fun p hp => hg p (by simp [hp])) res' m' hr (fun p hp => hn p (by simp [hp])) q hq
+    · simp only [hh, Bool.false_eq_true, if_false] at h
+      cases hc : t.call (getKey m k) datum with
+      | error e => simp [hc] at h
+      | ok r0 =>
+        obtain ⟨out, s⟩ := r0
+        simp only [hc] at h
+        obtain ⟨l1, l2⟩ := call_len L (getKey m k)
+          (fun s0 h0 => hg (k, datum) (by simp) (by simpa using hh) s0 h0) datum out s hc
+        cases hr : t.callDict hidden (setKey m k s) rest with
+        | error e => simp [hr] at h
+        | ok r =>
+          obtain ⟨res', m'⟩ := r
+          simp only [hr, Except.ok.injEq, Prod.mk.injEq] at h
+          obtain ⟨rfl, rfl⟩ := h
+          have hg' : ∀ p ∈ rest, hidden p.1 = false → ∀ s', getKey (setKey m k s) p.1 = some s' → Good s' := by
+            intro p hp hph s' hk'
+            by_cases hkk : p.1 = k
+            · rw [hkk, getKey_setKey_same] at hk'
+              cases hk'; exact l2
+            · rw [getKey_setKey_ne m k p.1 s hkk] at hk'
+              exact hg p (by simp [hp]) hph s' hk'
+          intro q hq
+          rcases List.mem_cons.1 hq with rfl | hq
+          · exact l1.trans (hn (k, datum) (by simp))
+          · exact ih _ hg' res' m' hr (fun p hp => hn p (by simp [hp])) q hq
+end
+
+/-! ## a `scale`-family call on the columns of a 2-D array -/
+section
+variable {t : T Rat Rat (Scale.State Rat) TErr} {Good : Scale.State Rat → Prop}
+
+/-- **Per-column state, fit then replay.**  The fitting call records one good state per column, and
+replaying exactly those states on the same array gives the same columns and leaves them unchanged. -/
+theorem callCols_fit (L : Lawful t Good) (cols outs : List (List Rat)) (ss : List (Scale.State Rat))
+    (h : callCols t none cols = .ok (outs, ss)) :
+    (∀ s ∈ ss, Good s) ∧ ss.length = cols.length ∧ callCols t (some ss) cols = .ok (outs, ss) := by
+  induction cols generalizing outs ss with
+  | nil =>
+    simp only [callCols, Except.ok.injEq, Prod.mk.injEq] at h
+    obtain ⟨rfl, rfl⟩ := h
+    exact ⟨fun _ hs => (by cases hs), rfl, rfl⟩
+  | cons c cs ih =>
+    simp only [callCols] at h
+    cases hc : t.call none c with
+    | error e => simp [hc] at h
+    | ok r0 =>
+      obtain ⟨out, s⟩ := r0
+      simp only [hc] at h
+      cases hr : callCols t none cs with
+      | error e => simp [hr] at h
+      | ok r =>
+        obtain ⟨outs', ss'⟩ := r
+        simp only [hr, Except.ok.injEq, Prod.mk.injEq] at h
+        obtain ⟨rfl, rfl⟩ := h
+        obtain ⟨g1, g2⟩ := call_none L c out s hc
+        obtain ⟨i1, i2, i3⟩ := ih outs' ss' hr
+        refine ⟨?_, by simp [i2], by simp only [callCols, g2, i3]⟩
+        intro s' hs'
+        rcases List.mem_cons.1 hs' with rfl | hs'
+        · exact g1
+        · exact i1 s' hs'
+
+/-- **Per-column state, replay.**  With one good recorded state per column the call leaves the states
+unchanged, keeps the number and the length of the columns, and commutes with row selection. -/
+theorem callCols_replay (L : Lawful t Good) (cols outs : List (List Rat)) (ss ss' : List (Scale.State Rat))
+    (hg : ∀ s ∈ ss, Good s) (h : callCols t (some ss) cols = .ok (outs, ss')) :
+    ss' = ss ∧ ss.length = cols.length ∧ outs.length = cols.length ∧
+      (∀ n, (∀ c ∈ cols, c.length = n) → ∀ o ∈ outs, o.length = n) ∧
+      ∀ is, callCols t (some ss) (cols.map (select is)) = .ok (outs.map (select is), ss) := by
+  induction cols generalizing outs ss ss' with
+  | nil =>
+    cases ss with
+    | nil =>
+      simp only [callCols, Except.ok.injEq, Prod.mk.injEq] at h
+      obtain ⟨rfl, rfl⟩ := h
+      exact ⟨rfl, rfl, rfl, fun _ _ o ho => (by cases ho), fun _ => rfl⟩
+    | cons s0 ss0 => simp [callCols] at h
+  | cons c cs ih =>
+    cases ss with
+    | nil => simp [callCols] at h
+    | cons s0 ss0 =>
+      simp only [callCols] at h
+      cases hc : t.call (some s0) c with
+      | error e => simp [hc] at h
+      | ok r0 =>
+        obtain ⟨out, s⟩ := r0
+        simp only [hc] at h
+        cases hr : callCols t (some ss0) cs with
+        | error e => simp [hr] at h
+        | ok r =>
+          obtain ⟨outs', ss1⟩ := r
+          simp only [hr, Except.ok.injEq, Prod.mk.injEq] at h
+          obtain ⟨rfl, rfl⟩ := h
+          obtain ⟨g1, g2, g3⟩ := call_some L s0 (hg s0 (by simp)) c out s hc
+          subst g1
+          obtain ⟨i1, i2, i3, i4, i5⟩ := ih outs' ss0 ss1 (fun s' hs' => hg s' (by simp [hs'])) hr
+          subst i1
+          refine ⟨rfl, by simp [i2], by simp [i3], ?_, fun is => ?_⟩
+          · intro n hn o ho
+            rcases List.mem_cons.1 ho with rfl | ho
+            · exact g2.trans (hn c (by simp))
+            · exact i4 n (fun c' hc' => hn c' (by simp [hc'])) o ho
+          · simp only [List.map_cons, callCols, g3 is, i5 is]
+
+end
+
+/-! ## positional keys -/
+
+theorem positional_keys (cols : List (List Rat)) :
+    (positional cols).map (·.1) = (List.range cols.length).map natField := by
+  unfold positional
+  rw [List.map_fst_zip]
+  simp
+
+theorem positional_length (cols : List (List Rat)) : (positional cols).length = cols.length := by
+  simp [positional]
+
+theorem positional_snd (cols : List (List Rat)) : (positional cols).map (·.2) = cols := by
+  unfold positional
+  rw [List.map_snd_zip]
+  simp
+
+theorem positional_select (is : List Nat) (cols : List (List Rat)) :
+    positional (cols.map (select is)) = selCols is (positional cols) := by
+  unfold positional selCols
+  simp only [List.length_map, List.zip_map_right]
+  rfl
 
 end FormulaicVerif.Proofs.C04
